@@ -164,8 +164,13 @@ class LibDriver:
         if err is None:
             self.ref.append(name)        # (a library that copes with such a name has simply accepted one more tag)
 
+    look_p = 1.0          # how often the library is looked at after an operation (set per library by the drivers)
+
     def full_check(self, rng):
         ctx = self.ctx
+        if self.look_p < 1.0 and rng.random() >= self.look_p:
+            ctx.count('operations_after_which_nobody_looked')
+            return
         ctx.count('full_checks')
         ref = self.ref
         n = len(ref)
